@@ -13,8 +13,8 @@ SQL text, the AST for Python shapes).  Any shape that is not recognised raises T
 * `holding_reset`       : the WHEN clause of trigger step_reset_holding,
 * `dispatch_code`       : `_get_next_step`: CHECKING if has_hash else RUNNING,
 * `release_guard`, `hold_step`, `release_step`: the counter arithmetic of Step.hold/release,
-* `recycle_zeroes_holding`, `recycle_replaces_claims`, `recycle_failed_to_pending`: what
-  Step.after_recycle does unconditionally,
+* `after_recycle_ops`   : Step.after_recycle translated statement by statement into (condition, action)
+  pairs (see _after_recycle_ops); the model interprets the list,
 * `partial_recycle_state`: the state Step.initialize_row writes,
 * `hash_slot_free`, `job_slot_free`: the tests in front of start_hash_task and of pop_next_job /
   start_task in Builder.job_loop, each TRANSLATED as an expression (class _SlotTest: comparisons,
@@ -502,6 +502,97 @@ def _body_srcs(fn):
     return [norm(ast.unparse(s)) for s in body]
 
 
+def _after_recycle_ops():
+    """Step.after_recycle as a list of (condition, action) pairs, one or two per statement, in order.
+
+    Conditions: CAlways, CFailed (`self.get_state() == StepState.FAILED`), CInFlight / CNotInFlight (the
+    local `in_flight = self.in_flight_state() is not None`), CEnvDiffers (a test that reads only the
+    `env_overrides` argument and `self.get_env_overrides()`: an oracle input of the model).
+    Actions: `AUpdate z` (UPDATE step SET need, shell [, _holding = 0]: z says whether _holding is zeroed),
+    AMarkPending (`self.graph.mark_step_pending(self)`: Workflow.mark_step_pending, pinned by
+    tr_mark_step_pending: no-op on RUNNING/CHECKING, else set_state(PENDING)), ASetClaims
+    (`self.set_resources(resources)`), ANone (a statement that writes only columns outside the model:
+    set_env_overrides -> step.env_overrides, set_duration -> step.duration; both bodies are checked).
+    Anything else: TranslatorError."""
+    fn = _method_src("Step", "after_recycle")
+    from .astutil import body_without_docstring
+    tree = parse_module(f"{CORE}/step.py")
+    for name, col in (("set_env_overrides", "env_overrides"), ("set_duration", "duration")):
+        body = _body_srcs(find_function(tree, name, "Step"))
+        if not body or body[-1] != f"self.db.execute('UPDATE step SET {col} = ? WHERE node = ?', ({'value' if col == 'env_overrides' else col}, self.i))" \
+                or any("execute" in b for b in body[:-1]):
+            raise TranslatorError(f"Step.{name}: no longer a single UPDATE of step.{col}")
+    geo = _body_srcs(find_function(tree, "get_env_overrides", "Step"))
+    if any("UPDATE" in b or "INSERT" in b or "DELETE" in b for b in geo):
+        raise TranslatorError("Step.get_env_overrides writes to the database")
+
+    def action(st):
+        src = norm(ast.unparse(st))
+        m = re.fullmatch(r"self\.db\.execute\('UPDATE step SET (.*?) WHERE node = \?', \((.*)\)\)", src)
+        if m:
+            cols = [c.strip() for c in m.group(1).split(",")]
+            rest = [c for c in cols if c not in ("need = ?", "shell = ?", "_holding = 0")]
+            if rest or not m.group(2).rstrip(",").endswith("self.i"):
+                raise TranslatorError(f"Step.after_recycle: UPDATE writes columns the model does not expect: {rest}")
+            return "AUpdate true" if "_holding = 0" in cols else "AUpdate false"
+        if src == "self.graph.mark_step_pending(self)":
+            return "AMarkPending"
+        if src == "self.set_resources(resources)":
+            return "ASetClaims"
+        if src in ("self.set_env_overrides(env_overrides)", "self.set_duration(duration)"):
+            return "ANone"
+        raise TranslatorError(f"Step.after_recycle: statement not recognised: {src[:160]}")
+
+    def condition(test):
+        src = norm(ast.unparse(test))
+        if src == "self.get_state() == StepState.FAILED":
+            return "CFailed", "CAlways?"
+        if src == "in_flight":
+            return "CInFlight", "CNotInFlight"
+        if src == "not in_flight":
+            return "CNotInFlight", "CInFlight"
+        if src == "duration is not None":
+            return "CAlways", None          # only guards an ANone
+        names = {n.id for n in ast.walk(test) if isinstance(n, ast.Name)}
+        calls = {ast.unparse(n.func) for n in ast.walk(test) if isinstance(n, ast.Call)}
+        attrs = {ast.unparse(n) for n in ast.walk(test) if isinstance(n, ast.Attribute)}
+        if names <= {"env_overrides", "self"} and calls <= {"self.get_env_overrides"} \
+                and attrs <= {"self.get_env_overrides"} and "env_overrides" in names:
+            return "CEnvDiffers", None
+        raise TranslatorError(f"Step.after_recycle: condition not recognised: {src[:160]}")
+
+    ops, bound = [], False
+    for st in body_without_docstring(fn):
+        src = norm(ast.unparse(st))
+        if src == "in_flight = self.in_flight_state() is not None":
+            if ops:
+                raise TranslatorError("Step.after_recycle: in_flight is not computed first")
+            bound = True
+            continue
+        if isinstance(st, ast.If):
+            c_then, c_else = condition(st.test)
+            if c_then in ("CInFlight", "CNotInFlight") and not bound:
+                raise TranslatorError("Step.after_recycle: in_flight used but not bound")
+            if len(st.body) != 1 or len(st.orelse) > 1:
+                raise TranslatorError(f"Step.after_recycle: compound branch: {src[:160]}")
+            a_then = action(st.body[0])
+            if src.startswith("if duration is not None") and a_then != "ANone":
+                raise TranslatorError("Step.after_recycle: the duration test guards a write of the row")
+            ops.append((c_then, a_then))
+            if st.orelse:
+                if c_else is None or c_else.endswith("?"):
+                    raise TranslatorError(f"Step.after_recycle: else branch not recognised: {src[:160]}")
+                ops.append((c_else, action(st.orelse[0])))
+        elif isinstance(st, ast.Expr):
+            ops.append(("CAlways", action(st)))
+        else:
+            raise TranslatorError(f"Step.after_recycle: statement not recognised: {src[:160]}")
+    acts = [a for _, a in ops]
+    if not any(a.startswith("AUpdate") for a in acts) or "ASetClaims" not in acts:
+        raise TranslatorError("Step.after_recycle: need/shell/_holding update or set_resources missing")
+    return ops
+
+
 def tr_after_recycle(ss):
     """What re-declaring an existing detached step does to its row.
 
@@ -513,26 +604,16 @@ def tr_after_recycle(ss):
       CHECKING) and leave state, _holding and step_resource of such a row alone.
     Independently, Workflow.define_step may refuse to declare a detached step whose job is in flight
     (`define_rejects_inflight`)."""
-    fn = _method_src("Step", "after_recycle")
-    srcs = _body_srcs(fn)
-    upd_all = ("self.db.execute('UPDATE step SET need = ?, shell = ?, _holding = 0 WHERE node = ?', "
-               "(need.value, int(shell), self.i))")
-    upd_keep = "self.db.execute('UPDATE step SET need = ?, shell = ? WHERE node = ?', (need.value, int(shell), self.i))"
-    tail = [
-        "self.set_env_overrides(env_overrides)",
-        "if duration is not None: self.set_duration(duration)",
-    ]
-    failed = "if self.get_state() == StepState.FAILED: self.graph.mark_step_pending(self)"
-    shape0 = [upd_all, failed, "self.set_resources(resources)", *tail]
-    shape1 = ["in_flight = self.in_flight_state() is not None",
-              f"if in_flight: {upd_keep} else: {upd_all}", failed,
-              "if not in_flight: self.set_resources(resources)", *tail]
-    if srcs == shape0:
-        keep_ar = False
-    elif srcs == shape1:
+    ops = _after_recycle_ops()
+    # the repaired shape: every write of _holding / step_resource is under `not in flight`
+    writes = [(c, a) for c, a in ops if a in ("AUpdate true", "ASetClaims")]
+    if all(c == "CNotInFlight" for c, _ in writes):
         keep_ar = True
+    elif all(c == "CAlways" for c, _ in writes):
+        keep_ar = False
     else:
-        raise TranslatorError("Step.after_recycle: body changed: " + " | ".join(srcs)[:300])
+        raise TranslatorError("Step.after_recycle: _holding and step_resource are written under different conditions: "
+                              + "; ".join(f"({c}, {a})" for c, a in ops))
     fn = _method_src("Step", "set_resources")
     src = norm(ast.unparse(fn))
     if "self.db.execute('DELETE FROM step_resource WHERE node = ?', (self.i,))" not in src or \
@@ -618,10 +699,10 @@ def tr_after_recycle(ss):
         raise TranslatorError("Step.can_recycle: now inspects the step state (model must be revised)")
     b = lambda v: "true" if v else "false"  # noqa: E731
     return [
-        "(* what Step.after_recycle does to a row whose job is NOT in flight *)",
-        "Definition recycle_zeroes_holding : bool := true.",
-        "Definition recycle_replaces_claims : bool := true.",
-        "Definition recycle_failed_to_pending : bool := true.",
+        "(* Step.after_recycle, statement by statement: (condition, action) *)",
+        "Inductive rcond := CAlways | CFailed | CEnvDiffers | CInFlight | CNotInFlight.",
+        "Inductive ract := AUpdate (zero_holding : bool) | AMarkPending | ASetClaims | ANone.",
+        "Definition after_recycle_ops : list (rcond * ract) :=\n  [" + "; ".join(f"({c}, {a})" for c, a in ops) + "].",
         f"Definition partial_recycle_state : N := {ss['PENDING']}%N.",
         "Definition recycle_inspects_state : bool := false.",
         "(* shape of the recycle code w.r.t. a step whose job is in flight (RUNNING/CHECKING): after_recycle,",
